@@ -142,6 +142,10 @@ def run_simple(ctx, module, name, cmd, recs, texts_path, shards=16, what="record
             stats[k] = stats.get(k, 0) + v
         rejects += r.tagged("REJECT")
         cerr += r.tagged("CERR")
+        if r.tagged("MIRRORUNSOUND"):
+            ctx.violation("model Analyze.tla: mirrored size facts are unsound for %s" % r.tagged("MIRRORUNSOUND")[0]["pat"], dict(kind="mc", got=r.tagged("MIRRORUNSOUND")[0]))
+        if r.tagged("MISALIGNED"):
+            raise ToolError("%s(%s): facts and parsed tree are not aligned: %s" % (module, name, r.tagged("MISALIGNED")[0]))
         if r.tagged("LEMMAFAIL"):
             raise ToolError("%s(%s): a spec-level lemma was refuted by TLC: %s" % (module, name, r.tagged("LEMMAFAIL")[0]))
     if stats["records"] != len(recs):
@@ -220,6 +224,48 @@ def c17(ctx):
     ctx.exhaustive = True
     ctx.cov["exhaustive_note"] = "all strings up to length %d over the 24-symbol alphabet; longer strings sampled; the haystack derivation of the random part is repeated in the driver" % n
     ctx.assumptions = ["Escape.tla: set of special characters and hosts; RefSem for the meaning of the hosts"]
+    return "model_checking"
+
+
+@check("C13")
+def c13(ctx):
+    excl = "".join(common.excl_classes("C13"))
+    ctx.rule = ("facts records = for every pattern the per-node analysis facts (min_size, const_size, hard) read through the hook, the tree the real parser built "
+                "and the outcome of Regex::new; TLC enumerates, for every node, all lengths with which it can match over all texts x start positions x "
+                "assignments of the groups it refers to (RefSem) and checks soundness of the REAL facts, the look-behind compile decision "
+                "(accepted => one length per arm; two witnessed lengths => LookBehindNotConst) and the soundness of the mirror Analyze.tla; "
+                "behaviour rows = accepted look-behinds on texts with 1-4 byte characters at every offset; non-trivial = nodes checked / matching cells")
+    tw = texts("wide", 3)
+    tab = texts("ab", 3)
+    lb = []
+    for n in (1, 2, 3):
+        lb += read_ndjson(pats("lb", n))
+    lb4 = read_ndjson(pats("lb", 4))
+    core3 = read_ndjson(pats("core", 3))
+    cond = read_ndjson(pats("cond", 3)) + read_ndjson(pats("cond", 4))
+    if ctx.quick:
+        fspaces = [("lb123", renumber_ids(lb)), ("lb4s", renumber_ids(sample(ctx, lb4, 500))), ("core3s", renumber_ids(sample(ctx, core3, 400))),
+                   ("conds", renumber_ids(sample(ctx, cond, 400))), ("random_wild", randgen.random_pats(ctx.rng, "wildlb", 500, depth=3))]
+        rspaces = [("lb123", renumber_ids(lb)), ("lb4s", renumber_ids(sample(ctx, lb4, 700)))]
+    else:
+        fspaces = [("lb123", renumber_ids(lb)), ("lb4", lb4), ("core3", core3), ("cond", renumber_ids(cond)),
+                   ("random_wild", randgen.random_pats(ctx.rng, "wildlb", 20000, depth=4, max_nodes=14))]
+        rspaces = [("lb123", renumber_ids(lb)), ("lb4", lb4)]
+    for name, recs in fspaces:
+        stats, rejects, cerr = run_simple(ctx, "TraceFacts", name, "facts", recs, tab)
+        ctx.evaluations += stats["nodes"]
+        ctx.nontrivial += stats["nodes"]
+        ctx.cov.setdefault("spec_drift", {})[name] = "%d of %d nodes: real facts differ from the mirror Analyze.tla (informational)" % (stats["drift_nodes"], stats["nodes"])
+        for j in rejects:
+            ctx.violation("pattern %s: %s at node %s: facts [min,const,hard,g0,g1]=%s, witnessed lengths %s (compile: %s %s)"
+                          % (j["pat"], j["what"], json.dumps(j["node"]), j["facts"], j["witnessed_lengths"], j["st"], j["ek"]),
+                          dict(kind="facts", ast=j["ast"], ng=j["ng"], pat=j["pat"], texts=tab, got=j))
+    for name, recs in rspaces:
+        rowsp.run_rows(ctx, "rows_" + name, recs, tw, "caps", excl)
+    probe_known(ctx, "caps")
+    ctx.exhaustive = False
+    ctx.assumptions = ROWS_ASSUME + ["lengths are witnessed over texts over {a,b} up to length 3 (soundness can only be refuted, not proved, by enumeration)",
+                                     "nodes referring to more than two groups are evaluated with those groups unset only"]
     return "model_checking"
 
 
